@@ -54,7 +54,7 @@ theorem C32_frame_roundtrip (r : Reader) (frame : Bs) (pts : Nat) (rest : Bs)
   parseNextFrame_record r frame pts rest hlen hpts hnum
 
 /-- **Main theorem.** For every configuration, every packet stream (any descriptors: lost, reordered,
-    undepacketizable packets included, even a run cut short by the VP8 panic) and both kinds of sink,
+    undepacketizable packets and bare payload descriptors included) and both kinds of sink,
     the reader returns: the configured header; a frame count equal to the number of frames written
     (mod 2^32) when the sink is seekable and 900 otherwise; exactly the frames the writer assembled —
     same bytes, same order — each with timestamp `pts·den/num`; and then a clean end of file. -/
@@ -146,18 +146,14 @@ theorem C32_timestamp_le (c : Config) (hc : ValidConfig c) (t : Nat) (ht : t < t
 
 /-! ## which packets end up in which frame (gating) -/
 
-/-- bit 0 of the first payload byte clear (VP8 key frame) -/
-def vp8KeyBit : Bs → Bool
-  | x :: _ => x.toNat % 2 == 0
-  | [] => false
-
-/-- A VP8 frame as pion's payloader emits it. A descriptor is `(S, _, payload)`. -/
+/-- A VP8 frame as pion's payloader emits it (and a little more: packets after the first may carry a bare
+    payload descriptor with no data). A descriptor is `(S, _, payload)`; the frame is a key frame when
+    bit 0 of its first payload byte is clear (`vp8KeyFrameBit`). -/
 structure VP8Frame (f : Frame) : Prop where
   nonempty : f.pkts ≠ []
-  payloads : ∀ d ∈ f.pkts, d.2.2 ≠ []                                    -- every packet carries data
-  startsWithS : ∃ d rest, f.pkts = d :: rest ∧ d.1 = true                 -- S = 1 on the first packet
+  startsWithS : ∃ d rest, f.pkts = d :: rest ∧ d.1 = true ∧ d.2.2 ≠ []    -- S = 1 and data on the first packet
   /-- in an inter frame no packet looks like the first packet of a key frame -/
-  noLateKey : f.key vp8Sem = false → ∀ d ∈ f.pkts, ¬ (d.1 = true ∧ vp8KeyBit d.2.2 = true)
+  noLateKey : f.key vp8Sem = false → ∀ d ∈ f.pkts, ¬ (d.1 = true ∧ vp8KeyFrameBit d.2.2 = true)
 
 /-- A VP9 frame. A descriptor is `(P, B, payload)`. -/
 structure VP9Frame (f : Frame) : Prop where
@@ -175,24 +171,18 @@ structure AV1Frame (f : Frame) : Prop where
 theorem VP8Frame.wf {f : Frame} (h : VP8Frame f) : Frame.WF vp8Sem f where
   nonempty := h.nonempty
   opens := fun _ => by
-    obtain ⟨d, rest, he, hs⟩ := h.startsWithS
-    exact ⟨d, rest, he, hs, h.payloads d (by rw [he]; simp)⟩
-  payloads := fun _ => h.payloads
+    obtain ⟨d, rest, he, hs, hp⟩ := h.startsWithS
+    exact ⟨d, rest, he, hs, hp⟩
   noLateKey := fun hk d hd => by
     have := h.noLateKey hk d hd
-    obtain ⟨a, b', pl⟩ := d
-    cases pl with
-    | nil => simp [vp8Sem]
-    | cons x xs =>
-      simp only [vp8Sem, vp8KeyBit] at this ⊢
-      cases a <;> simp_all
+    simp only [vp8Sem, Bool.not_true, Bool.false_or]
+    cases h1 : d.1 <;> cases h2 : vp8KeyFrameBit d.2.2 <;> simp_all
 
 theorem VP9Frame.wf {f : Frame} (h : VP9Frame f) : Frame.WF vp9Sem f where
   nonempty := h.nonempty
   opens := fun _ => by
     obtain ⟨d, rest, he, hs, hp⟩ := h.startsWithB
     exact ⟨d, rest, he, hs, hp⟩
-  payloads := fun hp => by simp [vp9Sem] at hp
   noLateKey := fun hk d hd => by
     have := h.noLateKey hk d hd
     simp only [vp9Sem, Bool.not_true, Bool.false_or]
@@ -201,7 +191,6 @@ theorem VP9Frame.wf {f : Frame} (h : VP9Frame f) : Frame.WF vp9Sem f where
 theorem AV1Frame.wf {f : Frame} (h : AV1Frame f) : Frame.WF av1Sem f where
   nonempty := h.nonempty
   opens := fun hs => by simp [av1Sem] at hs
-  payloads := fun hp => by simp [av1Sem] at hp
   noLateKey := fun hk d hd => by
     obtain ⟨h1, h2⟩ := h.noLateKey hk d hd
     simp [av1Sem, h1, h2]
@@ -299,12 +288,30 @@ theorem C32_zero_numerator_unreadable (c : Config) (hw : c.width < 65536) (hh : 
   rw [header_eq, parseFileHeader_headerN c 900 rest hw hh hd (by rw [h]; decide)]
   simp [expectedHeader, h]
 
-/-- `writeVP8` indexes `Payload[0]` without a length test: a VP8 packet whose payload descriptor is not
-    followed by any data (accepted by `VP8Packet.Unmarshal`) panics. Outside C32's quantifier (pion's
-    payloader never emits such a packet); this is why `VP8Frame.payloads` is a hypothesis. -/
-theorem C32_vp8_empty_payload_panics (c : Config) (hcodec : c.codec = .vp8) (s : W) (ts : Nat) (m a b' : Bool) :
-    writeRTP c s { ts, marker := m, empty := false, desc := .ok a b' [] } = .panic := by
-  simp [writeRTP, hcodec, writeVP8]
+/-! ## the writer never panics -/
+
+/-- `WriteRTP` never indexes out of range: for every codec, every writer state and every packet
+    (every descriptor a depacketizer can return, empty payloads included) it returns nil or an error. -/
+theorem C32_writeRTP_no_panic (c : Config) (s : W) (p : Pkt) : writeRTP c s p ≠ .panic :=
+  writeRTP_no_panic c s p
+
+/-- …hence feeding ANY packet stream of any codec runs to its end: no call panics. -/
+theorem C32_run_no_panic (c : Config) (ps : List Pkt) : (run c ps).panicAt = none :=
+  runFrom_no_panic c ps _ 0 0
+
+/-- A VP8 packet that is a bare payload descriptor (no data; accepted by `VP8Packet.Unmarshal`) inside a
+    frame contributes no bytes and its marker still completes the frame. (Before the fix
+    `fix: ivfwriter does not index an empty VP8 payload` this packet panicked the writer.) -/
+theorem C32_vp8_descriptor_only_packet (c : Config) (hcodec : c.codec = .vp8) (s : W) (ts : Nat) (a b' : Bool)
+    (hseen : s.seenKey = true) (hcur : s.cur ≠ []) :
+    ∃ s', writeRTP c s { ts, marker := true, empty := false, desc := .ok a b' [] } = .ok s' ∧
+      s'.cur = [] ∧
+      s'.log.map (fun e => (e.frame, e.rtpTs)) = s.log.map (fun e => (e.frame, e.rtpTs)) ++ [(s.cur, ts)] := by
+  obtain ⟨s', hw, _, h2, h3⟩ := step_flush c s ts (a, b', []) (Or.inl hseen)
+    (fun _ hnil => absurd hnil hcur) (fun _ h => hcur (by simpa using h))
+  refine ⟨s', hw, h2, ?_⟩
+  rw [hcodec] at h3
+  simpa [proj, semOf, vp8Sem] using h3
 
 /-! ## non-vacuity -/
 
@@ -312,21 +319,21 @@ example : ValidConfig {} := by unfold ValidConfig; decide
 example : ValidConfig { codec := .av1, width := 1920, height := 1080, num := 1, den := 90000, direct := true } := by
   unfold ValidConfig; decide
 
-/-- a two-packet VP8 key frame followed by a one-packet inter frame -/
+/-- a VP8 key frame in three packets (the middle one a bare descriptor) followed by a one-packet inter frame -/
 def sampleFrames : List Frame :=
-  [{ ts := 4294967000, pkts := [(true, false, [0x10, 1, 2]), (false, false, [3])] },
+  [{ ts := 4294967000, pkts := [(true, false, [0x10, 1, 2]), (false, false, []), (false, false, [3])] },
    { ts := 2704, pkts := [(true, false, [0x11, 9])] }]
 
 example : ∀ f ∈ sampleFrames, VP8Frame f := by
   intro f hf
   simp only [sampleFrames, List.mem_cons, List.mem_nil_iff, or_false] at hf
   rcases hf with rfl | rfl
-  · exact ⟨by simp, by simp, ⟨_, _, rfl, rfl⟩, by simp [Frame.key, vp8Sem]⟩
-  · refine ⟨by simp, by simp, ⟨_, _, rfl, rfl⟩, ?_⟩
+  · exact ⟨by simp, ⟨_, _, rfl, rfl, by simp⟩, by simp [Frame.key, vp8Sem, vp8KeyFrameBit]⟩
+  · refine ⟨by simp, ⟨_, _, rfl, rfl, by simp⟩, ?_⟩
     intro _ d hd
     simp only [List.mem_cons, List.mem_nil_iff, or_false] at hd
     subst hd
-    simp [vp8KeyBit]
+    simp [vp8KeyFrameBit]
 
 -- the first frame is a key frame, the stream is written completely, PTS 0 then (3000 ticks → 33 ms → 33·1/30 = 1)
 example : (run {} (streamPkts sampleFrames)).st.log.map (fun e => (e.frame, e.pts)) = [([0x10, 1, 2, 3], 0), ([0x11, 9], 1)] := by
